@@ -154,7 +154,11 @@ impl OnetimeAuth {
         key: Key,
         input: &Input,
     ) -> Result<(), Error> {
-        crypto_onetimeauth_verify(other_mac.as_array(), input.as_slice(), key.as_array())
+        crypto_onetimeauth_verify(
+            received_array(other_mac, "mac")?,
+            input.as_slice(),
+            key.as_array(),
+        )
     }
 
     /// Returns a new one-time authenticator for `key`. The `key` is
@@ -197,10 +201,10 @@ impl OnetimeAuth {
         self,
         other_mac: &OtherMac,
     ) -> Result<(), Error> {
+        let other_mac = received_array(other_mac, "mac")?;
         let computed_mac: Mac = self.finalize();
 
         if other_mac
-            .as_array()
             .ct_eq(computed_mac.as_array())
             .unwrap_u8()
             == 1
